@@ -149,7 +149,7 @@ def side_case(rng):
 
 def run(ctx):
     quick = ctx.tier == 'quick'
-    lib.stage_proof(ctx, PROP_FILES)
+    lib.stage_proof(ctx, PROP_FILES, ['Check/C03.vo'])
     n_corr = 250 if quick else 3000
     cases, metas = [], []
     for k in range(n_corr):
